@@ -515,6 +515,12 @@ theorem C17_interface_extends_only (fuel : Nat) (st : St) (n b : String) (ir as 
       = (orObject (rtExtend [] (inferRuntime fuel st (.mk .tsTypeRef [] [.mk .ident pias [], targs])).1),
          (inferRuntime fuel st (.mk .tsTypeRef [] [.mk .ident pias [], targs])).2) := by
   simp [inferRuntime, h1, h2, enterRes_ok _ _ hg, memberRuntime]
+/-- The rest element of a tuple (reached by indexing, `[A, ...B[]][1]`) has the runtime types of its element type `B`
+    (fix bfb62e1: it was `Object`, which rejects every value of `B` unless `B` is an object type). -/
+theorem C17_tuple_rest_element (fuel : Nat) (st : St) (as aas : List String) (elem : Node) (hg : st.typeGaveUp = false) :
+    inferRuntime (fuel + 1) st (.mk (.other "TsRestType") as [.mk .tsArray aas [elem]]) = inferRuntime fuel st elem := by
+  simp [inferRuntime, enterRes_ok _ _ hg]
+
 /-- non-vacuity: the hypotheses of `C17_soundness` are met by a nested type and an initial state -/
 example : (Ty.optional (.union [.paren (.kw "string"), .nonNull (.union [.cls "Date", .kw "null"])])).wf = true
     ∧ (Ty.optional (.union [.paren (.kw "string"), .nonNull (.union [.cls "Date", .kw "null"])])).depth ≤ FUEL := by
